@@ -458,7 +458,13 @@ mod stm {
                 // test stands between this input and acceptance
                 if k == 1 && base.vals.len() == v.vals.len() {
                     v.idxs.push(v.idxs[0]);
-                    v.leaves.push(foreign(fresh));
+                    // the genuine entry first (a verifier looking only at the first remaining node would
+                    // accept) or last (one looking only at the last)
+                    if rng.coin() {
+                        v.leaves.push(foreign(fresh));
+                    } else {
+                        v.leaves.insert(0, foreign(fresh));
+                    }
                     v.vals = v.vals.iter().flat_map(|x| [x.clone(), x.clone()]).collect();
                     ("dup-index-foreign-leaf-doubled-path", Expect::Reject)
                 } else {
@@ -584,6 +590,133 @@ mod stm {
         }
     }
 
+    // ---- the real leaf of the signer-registration tree: (BLS verification key, stake) = 96 + 8 bytes.
+    // The committed payloads handed to the model are computed here (key bytes ++ big-endian stake),
+    // the implementation hashes whatever `as_bytes_for_merkle_tree` says: a claimed entry that differs
+    // from the committed one in any byte of the key or of the stake must not verify.
+    type RLeaf = vx::MerkleTreeConcatenationLeaf;
+    fn rpayload(l: &RLeaf) -> Vec<u8> {
+        let mut b = l.0.to_bytes().to_vec();
+        b.extend_from_slice(&l.1.to_be_bytes());
+        b
+    }
+    fn verify_real(root: &[u8], nrl: usize, claims: &[RLeaf], vals: &[Vec<u8>], idxs: &[usize]) -> u8 {
+        let (root, claims, vals, idxs) = (root.to_vec(), claims.to_vec(), vals.to_vec(), idxs.to_vec());
+        let r = hc::catch(std::panic::AssertUnwindSafe(move || {
+            let c = vx::batch_commitment_new::<RLeaf>(root, nrl);
+            let p = vx::batch_path_new(vals, idxs);
+            vx::batch_commitment_verify(&c, &claims, &p).is_ok()
+        }));
+        match r {
+            Some(true) => 0,
+            Some(false) => 1,
+            None => 2,
+        }
+    }
+    pub fn run_real(sink: &mut Sink, rng: &mut Rng, thorough: bool) {
+        use mithril_common::test::builder::MithrilFixtureBuilder;
+        let nkeys = 7usize;
+        let fx = MithrilFixtureBuilder::default().with_signers(nkeys).build();
+        let vks: Vec<_> = fx.signers_fixture().iter().map(|s| s.verification_key_for_concatenation().into_inner().vk).collect();
+        let pool: [u64; 12] = [0, 1, 2, 255, 256, 65_536, 1 << 32, (1 << 32) + 1, 1 << 56, 0x0102_0304_0506_0708, u64::MAX - 1, u64::MAX];
+        for n in 1..nkeys {
+            let committed: Vec<RLeaf> = (0..n).map(|i| vx::MerkleTreeConcatenationLeaf(vks[i], *rng.pick(&pool))).collect();
+            let t = vx::merkle_tree_new(&committed);
+            let root = vx::merkle_tree_batch_commitment(&t).root;
+            // digest -> smallest heap position, from the single-leaf paths (as Tree::new does)
+            let nr = n as u64 + np2(n) - 1;
+            let off = np2(n) - 1;
+            let mut pos_of: HashMap<Vec<u8>, u64> = HashMap::new();
+            pos_of.insert(root.clone(), 0);
+            for i in 0..n {
+                let (vals, _) = vx::batch_path_parts(&vx::merkle_tree_batch_path(&t, vec![i]));
+                let (mut p, mut k) = (off + i as u64, 0);
+                while p > 0 {
+                    let sb = if p % 2 == 1 { p + 1 } else { p - 1 };
+                    if sb < nr {
+                        let e = pos_of.entry(vals[k].clone()).or_insert(sb);
+                        if sb < *e {
+                            *e = sb;
+                        }
+                        k += 1;
+                    }
+                    p = (p - 1) / 2;
+                }
+            }
+            let masks: Vec<u32> = if n <= 4 { (1u32..(1 << n)).collect() } else { (0..if thorough { 16 } else { 6 }).map(|_| 1 + rng.below((1 << n) - 1) as u32).collect() };
+            for mask in masks {
+                let idxs: Vec<usize> = (0..n).filter(|i| mask >> i & 1 == 1).collect();
+                let (vals, _) = vx::batch_path_parts(&vx::merkle_tree_batch_path(&t, idxs.clone()));
+                let svals: Vec<S> = vals.iter().map(|v| S::N(*pos_of.get(v).expect("generated value is no node of the tree"))).collect();
+                // variants of the claimed entries: 0 honest; 1..=8 one stake byte of one entry altered;
+                // 9 key of another signer with the committed stake; 10 another committed entry; 11 a
+                // committed key with the stake of another entry; 12 a key outside the tree
+                for variant in 0..13u32 {
+                    let mut r = rng.fork();
+                    let Some(id) = sink.wants() else { continue };
+                    let mut claims: Vec<RLeaf> = idxs.iter().map(|i| committed[*i]).collect();
+                    let j = r.below(claims.len() as u64) as usize;
+                    let o = (idxs[j] + 1 + r.below(nkeys as u64 - 1) as usize) % nkeys;
+                    let kind = match variant {
+                        0 => "honest",
+                        1..=8 => {
+                            claims[j].1 ^= (1 + r.below(255)) << (8 * (variant - 1));
+                            "stake-byte-altered"
+                        }
+                        9 => {
+                            claims[j].0 = vks[o];
+                            "key-of-another-signer"
+                        }
+                        10 => {
+                            claims[j] = committed[(idxs[j] + 1) % n];
+                            "another-committed-entry"
+                        }
+                        11 => {
+                            claims[j].1 = committed[(idxs[j] + 1) % n].1.wrapping_add(if n == 1 { 1 } else { 0 });
+                            "stake-of-another-entry"
+                        }
+                        _ => {
+                            claims[j].0 = vks[nkeys - 1];
+                            "key-outside-the-tree"
+                        }
+                    };
+                    let out = verify_real(&root, n, &claims, &vals, &idxs);
+                    let acc = out == 0;
+                    let truthful = claims.iter().zip(&idxs).all(|(c, i)| rpayload(c) == rpayload(&committed[*i]));
+                    let (holds, why) = if acc && !truthful {
+                        (false, Some("the verifier accepted a registration entry (key, stake) that is not the committed entry at its index".to_string()))
+                    } else if !acc && truthful {
+                        (false, Some("the committed registration entries do not verify with the generated batch path".to_string()))
+                    } else {
+                        (true, None)
+                    };
+                    let cl: Vec<Vec<u8>> = committed.iter().map(rpayload).collect();
+                    let cc: Vec<Vec<u8>> = claims.iter().map(rpayload).collect();
+                    let ix: Vec<u64> = idxs.iter().map(|i| *i as u64).collect();
+                    sink.push(Case {
+                        id,
+                        kind: format!("stm-real/{}", kind),
+                        desc: serde_json::json!({"tree_leaves": n, "committed (key ++ stake)": cl.iter().map(hex::encode).collect::<Vec<_>>(), "indices": ix, "claimed": cc.iter().map(hex::encode).collect::<Vec<_>>(), "altered_entry": j}),
+                        model: Some(format!(
+                            "C09.Model.run_stm_verify {} (SN 0) {} {} {} {}",
+                            coq_ll(&cl),
+                            cq::n(n as u64),
+                            coq_ll(&cc),
+                            cq::list(&svals.iter().map(|x| x.coq()).collect::<Vec<_>>()),
+                            cq::list_n(&ix)
+                        )),
+                        impl_obs: coq::oz(out as i128),
+                        holds: Some(holds),
+                        why,
+                        known: None,
+                        nontrivial: n >= 2,
+                        key: format!("stm-real/{}/{}/{:?}/{:?}", kind, n, idxs, cc),
+                    });
+                }
+            }
+        }
+    }
+
     pub fn run(sink: &mut Sink, rng: &mut Rng, thorough: bool) {
         // 1. exhaustive: every size <= NMAX, every non-empty subset
         let nmax = 10;
@@ -657,7 +790,7 @@ mod mmr {
     use super::*;
     use mithril_common::entities::BlockRange;
     use mithril_merkle_tree::{
-        MKMap, MKMapNode, MKMapProof, MKProof, MKTree, MKTreeLeafIndexer, MKTreeLeafPosition, MKTreeNode, MKTreeStorer,
+        MKMap, MKMapNode, MKMapProof, MKProof, MKTree, MKTreeLeafIndexer, MKTreeLeafPosition, MKTreeNode, MKTreeStoreInMemory, MKTreeStorer,
     };
     use serde_json::{json, Value};
     use std::cell::RefCell;
@@ -768,11 +901,61 @@ mod mmr {
         pub pos: Vec<u64>,
         pub store: BTreeMap<u64, Vec<u8>>,
         pub name: HashMap<Vec<u8>, M>,
+        /// how the real tree was obtained (MKTree::new / new + append / append one by one / clone)
+        pub built: &'static str,
+        /// root of the tree this one was cloned from (same committed list)
+        pub orig_root: Option<Vec<u8>>,
     }
     impl T {
         pub fn tagged(id: u64, tag: u64, n: usize) -> T {
-            let mut t = T::new(id, (0..n).map(|i| leaf_bytes(tag, i)).collect());
+            T::tagged_mode(id, tag, n, 0)
+        }
+        pub fn tagged_mode(id: u64, tag: u64, n: usize, mode: u64) -> T {
+            if mode % 4 == 3 {
+                // leaves whose byte order is the reverse of their insertion order (explicit list in the model)
+                return T::new_mode(id, (0..n).rev().map(|i| leaf_bytes(tag, i)).collect(), mode);
+            }
+            let mut t = T::new_mode(id, (0..n).map(|i| leaf_bytes(tag, i)).collect(), mode);
             t.tag = Some(tag);
+            t
+        }
+        /// the same committed list through the other construction paths of MKTree: the operations share
+        /// the MMR store and the leaf-position index
+        pub fn new_mode(id: u64, leaves: Vec<Vec<u8>>, mode: u64) -> T {
+            if mode % 4 == 0 || leaves.is_empty() {
+                return T::new(id, leaves);
+            }
+            take_reg();
+            let nodes: Vec<MKTreeNode> = leaves.iter().map(|l| MKTreeNode::new(l.clone())).collect();
+            let mut orig_root = None;
+            let (tree, built): (MKTree<Obs>, &'static str) = match mode % 4 {
+                1 => {
+                    // new(prefix) then append(rest) in two batches
+                    let a = nodes.len() / 2;
+                    let b = a + (nodes.len() - a) / 2;
+                    let mut tr = MKTree::<Obs>::new(&nodes[..a]).expect("MKTree::new");
+                    tr.append(&nodes[a..b]).expect("append");
+                    tr.append(&nodes[b..]).expect("append");
+                    (tr, "new(prefix)+append+append")
+                }
+                2 => {
+                    let mut tr = MKTree::<Obs>::new::<MKTreeNode>(&[]).expect("MKTree::new");
+                    for n in &nodes {
+                        tr.append(std::slice::from_ref(n)).expect("append");
+                    }
+                    (tr, "new([])+append one by one")
+                }
+                _ => {
+                    let tr = MKTree::<Obs>::new(&nodes).expect("MKTree::new");
+                    orig_root = Some(tr.compute_root().expect("root").to_vec());
+                    (tr.clone(), "new+clone")
+                }
+            };
+            let reg = take_reg();
+            let inner = reg.last().expect("a store was built").clone();
+            let mut t = T::from_built(id, leaves, Arc::new(tree), &inner);
+            t.built = built;
+            t.orig_root = orig_root;
             t
         }
         pub fn coq_leaves(&self) -> String {
@@ -809,7 +992,7 @@ mod mmr {
             for (p, b) in store.iter().rev() {
                 name.insert(b.clone(), M::N(id, *p));
             }
-            T { id, tag: None, leaves, tree, root, size, pos, store, name }
+            T { id, tag: None, leaves, tree, root, size, pos, store, name, built: "new", orig_root: None }
         }
     }
 
@@ -820,6 +1003,9 @@ mod mmr {
         pub leaves: Vec<(u64, BV)>,
         pub size: u64,
         pub items: Vec<BV>,
+        /// values forged by moving the boundary between two raw sibling leaves (known finding
+        /// C09-raw-leaf-boundary): what the proof may wrongly vouch for inside that class
+        pub shifted: Vec<Vec<u8>>,
     }
     fn node_json(b: &[u8]) -> Value {
         json!({ "hash": b })
@@ -852,6 +1038,7 @@ mod mmr {
                 leaves: v["inner_leaves"].as_array().unwrap().iter().map(|e| (e[0].as_u64().unwrap(), nb(&e[1]))).collect(),
                 size: v["inner_proof_size"].as_u64().unwrap(),
                 items: v["inner_proof_items"].as_array().unwrap().iter().map(nb).collect(),
+                shifted: vec![],
             }
         }
         pub fn coq(&self) -> String {
@@ -907,8 +1094,8 @@ mod mmr {
         Sound,
     }
 
-    /// (verify accepted / rejected / panicked, contains per query)
-    pub fn run_proof(p: &P, queries: &[BV]) -> (u8, Vec<Option<bool>>) {
+    /// (verify accepted / rejected / panicked, contains per query, contains per query LIST)
+    pub fn run_proof(p: &P, queries: &[BV], multi: &[Vec<BV>]) -> (u8, Vec<Option<bool>>, Vec<Option<bool>>) {
         let real = p.real();
         let r2 = real.clone();
         let v = match hc::catch(std::panic::AssertUnwindSafe(move || r2.verify().is_ok())) {
@@ -924,14 +1111,32 @@ mod mmr {
                 hc::catch(std::panic::AssertUnwindSafe(move || r3.contains(&[n]).is_ok()))
             })
             .collect();
-        (v, c)
+        let cm = multi
+            .iter()
+            .map(|qs| {
+                let r3 = real.clone();
+                let ns: Vec<MKTreeNode> = qs.iter().map(|q| MKTreeNode::new(q.0.clone())).collect();
+                hc::catch(std::panic::AssertUnwindSafe(move || r3.contains(&ns).is_ok()))
+            })
+            .collect();
+        (v, c, cm)
+    }
+    fn obs_bools(c: &[Option<bool>]) -> String {
+        coq::ol(&c.iter().map(|x| match x { Some(b) => coq::ob(*b), None => coq::oz(2) }).collect::<Vec<_>>())
     }
     fn obs_vc(v: u8, c: &[Option<bool>]) -> String {
         match v {
             2 => coq::ol(&[coq::oz(2)]),
-            _ => coq::ol(&[coq::ob(v == 0), coq::ol(&c.iter().map(|x| match x { Some(b) => coq::ob(*b), None => coq::oz(2) }).collect::<Vec<_>>())]),
+            _ => coq::ol(&[coq::ob(v == 0), obs_bools(c)]),
         }
     }
+    fn obs_vcm(v: u8, c: &[Option<bool>], cm: &[Option<bool>]) -> String {
+        match v {
+            2 => coq::ol(&[coq::oz(2)]),
+            _ => coq::ol(&[coq::ob(v == 0), obs_bools(c), obs_bools(cm)]),
+        }
+    }
+    pub const KNOWN_RAW: &str = "C09-raw-leaf-boundary";
 
     pub struct Mutated {
         pub kind: String,
@@ -939,7 +1144,7 @@ mod mmr {
         pub expect: Expect,
     }
 
-    pub const N_MUT: u64 = 16;
+    pub const N_MUT: u64 = 18;
     pub fn mutate(t: &T, base: &P, rng: &mut Rng, which: u64) -> Mutated {
         let mut p = base.clone();
         let fresh = rng.below(1 << 20);
@@ -1001,9 +1206,11 @@ mod mmr {
             5 if k >= 2 => {
                 let j2 = (j + 1 + rng.below(k as u64 - 1) as usize) % k;
                 let (a, b) = (p.leaves[j].1.clone(), p.leaves[j2].1.clone());
+                // (a leaf asked for twice gives two identical entries: swapping them changes nothing)
+                let same = a.0 == b.0;
                 p.leaves[j].1 = b;
                 p.leaves[j2].1 = a;
-                ("leaves-swapped", Expect::Reject)
+                ("leaves-swapped", if same { Expect::Sound } else { Expect::Reject })
             }
             6 if k >= 2 => {
                 rng.shuffle(&mut p.leaves);
@@ -1054,6 +1261,12 @@ mod mmr {
                 p.items = peaks.iter().map(|q| (t.store[q].clone(), t.name[&t.store[q]].clone())).collect();
                 ("no-leaves-peaks-as-items", Expect::Sound)
             }
+            16 | 17 if k > 0 && shift_boundary(t, &mut p, j, which == 16, rng) => {
+                // known finding C09-raw-leaf-boundary: the claimed leaf and its raw sibling (another
+                // claimed leaf, or a proof item) with the boundary between them moved: same concatenation,
+                // hence the same parent digest
+                ("raw-boundary-shift", Expect::Reject)
+            }
             14 if nleaves == 3 => {
                 // the 3-leaf root Mrg c (Mrg a b) re-read as a 2-leaf tree: c claimed at position 0
                 let ab = t.store[&2].clone();
@@ -1070,6 +1283,51 @@ mod mmr {
         Mutated { kind: kind.into(), p, expect }
     }
 
+    /// move the boundary between claimed leaf j and its raw sibling leaf; false when the leaf has no raw
+    /// sibling in this proof (lone peak, or a leaf / item already altered)
+    fn shift_boundary(t: &T, p: &mut P, j: usize, shorter: bool, rng: &mut Rng) -> bool {
+        let cur = p.leaves[j].1 .0.clone();
+        let Some(i) = t.leaves.iter().position(|l| *l == cur) else { return false };
+        let sidx = i ^ 1;
+        if sidx >= t.leaves.len() || t.pos[i] != p.leaves[j].0 {
+            return false;
+        }
+        let sib = t.leaves[sidx].clone();
+        let (left, right) = if i < sidx { (cur.clone(), sib.clone()) } else { (sib.clone(), cur.clone()) };
+        let cat = [left.clone(), right].concat();
+        if left.len() < 2 || cat.len() < left.len() + 2 {
+            return false;
+        }
+        let cut = if shorter { 1 + rng.below(left.len() as u64 - 1) as usize } else { left.len() + 1 + rng.below((cat.len() - left.len() - 1) as u64) as usize };
+        let (nl, nr) = (cat[..cut].to_vec(), cat[cut..].to_vec());
+        let (ncur, nsib) = if i < sidx { (nl, nr) } else { (nr, nl) };
+        // the sibling is another claimed leaf at its own position, or the raw bytes among the items
+        let mut found = false;
+        for l in p.leaves.iter_mut() {
+            if l.0 == t.pos[sidx] && l.1 .0 == sib {
+                l.1 = (nsib.clone(), M::Raw(nsib.clone()));
+                found = true;
+            }
+        }
+        if !found {
+            if let Some(it) = p.items.iter_mut().find(|it| it.0 == sib) {
+                *it = (nsib.clone(), M::Raw(nsib.clone()));
+                found = true;
+            }
+        }
+        if !found {
+            return false;
+        }
+        for l in p.leaves.iter_mut() {
+            if l.0 == t.pos[i] && l.1 .0 == cur {
+                l.1 = (ncur.clone(), M::Raw(ncur.clone()));
+            }
+        }
+        p.shifted.push(ncur);
+        p.shifted.push(nsib);
+        true
+    }
+
     fn queries_for(t: &T, p: &P, rng: &mut Rng) -> Vec<BV> {
         let mut q: Vec<BV> = p.leaves.iter().map(|l| l.1.clone()).collect();
         q.truncate(6);
@@ -1082,29 +1340,48 @@ mod mmr {
     }
 
     fn push_proof(sink: &mut Sink, id: u64, t: &T, kind: &str, p: &P, queries: &[BV], expect: Expect, paired: bool) {
-        let (v, c) = run_proof(p, queries);
+        // `contains` of several leaves at once: everything asked about; the claimed leaves alone
+        let mut claimed: Vec<BV> = p.leaves.iter().map(|l| l.1.clone()).collect();
+        claimed.truncate(6);
+        let multi: Vec<Vec<BV>> = vec![queries.to_vec(), claimed.clone()];
+        let (v, c, cm) = run_proof(p, queries, &multi);
         let acc = v == 0;
         let committed = |b: &[u8]| t.leaves.iter().any(|l| l == b);
         let mut why = None;
+        // values the accepted proof vouches for that are no committed leaves
+        let mut bad: Vec<&BV> = vec![];
         if acc && p.root.0 != t.root {
             why = Some("a proof verifies although its root is not the committed root".to_string());
         }
         if acc && why.is_none() {
-            if let Some(l) = p.leaves.iter().find(|l| !committed(&l.1 .0)) {
+            for l in p.leaves.iter().filter(|l| !committed(&l.1 .0)) {
+                bad.push(&l.1);
                 why = Some(format!("MKProof::verify accepted a proof that vouches for {} which is no committed leaf", show(&l.1)));
             }
             for (q, r) in queries.iter().zip(&c) {
                 if *r == Some(true) && !committed(&q.0) {
+                    bad.push(q);
                     why = Some(format!("verified proof `contains` {} which is no committed leaf", show(q)));
                 }
             }
+            for (qs, r) in multi.iter().zip(&cm) {
+                if *r == Some(true) {
+                    if let Some(q) = qs.iter().find(|q| !committed(&q.0)) {
+                        bad.push(q);
+                        why = Some(format!("verified proof `contains` a list with {} which is no committed leaf", show(q)));
+                    }
+                }
+            }
         }
+        // inside the known class: everything wrongly vouched for is a boundary-shifted value
+        let known = if why.is_some() && !bad.is_empty() && bad.iter().all(|b| p.shifted.contains(&b.0)) { Some(KNOWN_RAW.to_string()) } else { None };
         if why.is_none() {
             match expect {
                 Expect::Accept if !acc => why = Some("an honest proof does not verify".to_string()),
                 Expect::Accept if !paired && !p.leaves.iter().zip(&c).take(6).all(|(_, r)| *r == Some(true)) => {
                     why = Some("an honest proof does not contain one of its leaves".to_string())
                 }
+                Expect::Accept if !paired && cm[1] != Some(true) => why = Some("an honest proof does not contain the list of its leaves".to_string()),
                 Expect::Reject if acc && !paired => why = Some("an altered proof component was accepted".to_string()),
                 _ => {}
             }
@@ -1112,17 +1389,18 @@ mod mmr {
         sink.push(Case {
             id,
             kind: format!("mmr/{}", kind),
-            desc: json!({"tree_leaves": t.leaves.len(), "leaf_i": format!("[76,{:?}>>8,..&255,i>>8,i&255]", t.tag), "proof": p.desc(), "queries": queries.iter().map(show).collect::<Vec<_>>()}),
+            desc: json!({"tree_leaves": t.leaves.len(), "leaf_i": format!("[76,{:?}>>8,..&255,i>>8,i&255]", t.tag), "built": t.built, "proof": p.desc(), "queries": queries.iter().map(show).collect::<Vec<_>>()}),
             model: Some(format!(
-                "C09.Model.run_mk {} {} {}",
+                "C09.Model.run_mk_multi {} {} {} {}",
                 t.coq_leaves(),
                 p.coq(),
-                cq::list(&queries.iter().map(|q| q.1.coq()).collect::<Vec<_>>())
+                cq::list(&queries.iter().map(|q| q.1.coq()).collect::<Vec<_>>()),
+                cq::list(&multi.iter().map(|qs| cq::list(&qs.iter().map(|q| q.1.coq()).collect::<Vec<_>>())).collect::<Vec<_>>())
             )),
-            impl_obs: obs_vc(v, &c),
+            impl_obs: obs_vcm(v, &c, &cm),
             holds: Some(why.is_none()),
             why,
-            known: None,
+            known,
             nontrivial: t.leaves.len() >= 2,
             key: format!("mmr/{}/{}/{}", kind, t.leaves.len(), p.coq()),
         });
@@ -1148,8 +1426,26 @@ mod mmr {
         let (obs, holds, why) = match &h {
             None => (coq::ol(&[coq::oz(1)]), Some(sel.is_empty()), if sel.is_empty() { None } else { Some("proof generation failed for committed leaves".to_string()) }),
             Some(p) => {
-                let (v, c) = run_proof(p, &p.leaves.iter().map(|l| l.1.clone()).collect::<Vec<_>>());
-                let ok = v == 0 && c.iter().all(|x| *x == Some(true)) && p.root.0 == t.root;
+                let (v, c, _) = run_proof(p, &p.leaves.iter().map(|l| l.1.clone()).collect::<Vec<_>>(), &[]);
+                let mut clone_ok = t.orig_root.as_ref().map_or(true, |r| *r == t.root);
+                // the production store (MKTreeStoreInMemory) must commit to the same root, also after a
+                // clone, and its proof for the same leaves must verify and contain them
+                let mem_ok = {
+                    let nodes: Vec<MKTreeNode> = t.leaves.iter().map(|l| MKTreeNode::new(l.clone())).collect();
+                    let want: Vec<MKTreeNode> = sel.iter().map(|i| nodes[*i].clone()).collect();
+                    let root = t.root.clone();
+                    hc::catch(std::panic::AssertUnwindSafe(move || {
+                        let mt = MKTree::<MKTreeStoreInMemory>::new(&nodes).ok()?;
+                        let mt2 = mt.clone();
+                        let same = mt.compute_root().ok()?.to_vec() == root && mt2.compute_root().ok()?.to_vec() == root;
+                        let pr = mt2.compute_proof(&want).ok()?;
+                        Some(same && pr.verify().is_ok() && pr.contains(&want).is_ok() && pr.root().to_vec() == root)
+                    }))
+                    .flatten()
+                        == Some(true)
+                };
+                clone_ok = clone_ok && mem_ok;
+                let ok = v == 0 && c.iter().all(|x| *x == Some(true)) && p.root.0 == t.root && clone_ok;
                 let items: Vec<String> = p
                     .items
                     .iter()
@@ -1162,7 +1458,7 @@ mod mmr {
                 (
                     coq::ol(&[coq::oz(0), coq::oln(&p.leaves.iter().map(|l| l.0).collect::<Vec<_>>()), coq::on(p.size), coq::ol(&items), coq::ob(v == 0)]),
                     Some(ok),
-                    if ok { None } else { Some("the generated MKProof does not verify / contain its leaves against the committed root".to_string()) },
+                    if ok { None } else if !clone_ok { Some("an MKTree over the in-memory store, or its clone, does not commit to the same root / does not prove its leaves".to_string()) } else { Some("the generated MKProof does not verify / contain its leaves against the committed root".to_string()) },
                 )
             }
         };
@@ -1254,16 +1550,63 @@ mod mmr {
         pub subs: Vec<T>,
         pub master: T,
         pub map: MKMap<BlockRange, MKMapNode<BlockRange, Obs>, Obs>,
+        /// ranges whose value is a full tree (the others are compressed to their root, MKMapNode::TreeNode)
+        pub provable: Vec<bool>,
+        pub built: &'static str,
     }
     impl Forest {
         pub fn new(tag: u64, sizes: &[usize]) -> Forest {
+            Forest::new_mode(tag, sizes, 0, &vec![true; sizes.len()])
+        }
+        /// mode 0: MKMap::new over full trees.  mode 1 (what the aggregator's prover does): MKMap::new over
+        /// the range ROOTS, clone, then replace the provable ranges by their full trees.  mode 2: new over
+        /// full trees, compress, replace.  mode 3: new(&[]) then insert in key order.
+        pub fn new_mode(tag: u64, sizes: &[usize], mode: u64, provable: &[bool]) -> Forest {
             let keys: Vec<BlockRange> = (0..sizes.len() as u64).map(|i| BlockRange::from(i * 15..(i + 1) * 15)).collect();
             let subs: Vec<T> = sizes.iter().enumerate().map(|(i, n)| T::tagged(i as u64 + 1, tag * 10 + i as u64, *n)).collect();
             take_reg();
-            let entries: Vec<(BlockRange, MKMapNode<BlockRange, Obs>)> = keys.iter().cloned().zip(subs.iter().map(|t| MKMapNode::Tree(t.tree.clone()))).collect();
-            let map = MKMap::<BlockRange, MKMapNode<BlockRange, Obs>, Obs>::new(&entries).expect("MKMap::new");
+            type Node = MKMapNode<BlockRange, Obs>;
+            let full = |i: usize| -> Node { MKMapNode::Tree(subs[i].tree.clone()) };
+            let rootn = |i: usize| -> Node { MKMapNode::TreeNode(MKTreeNode::new(subs[i].root.clone())) };
+            let provable: Vec<bool> = if mode % 4 == 0 { vec![true; sizes.len()] } else { provable.to_vec() };
+            let (map, built): (MKMap<BlockRange, Node, Obs>, &'static str) = match mode % 4 {
+                0 => {
+                    let entries: Vec<(BlockRange, Node)> = (0..keys.len()).map(|i| (keys[i].clone(), full(i))).collect();
+                    (MKMap::new(&entries).expect("MKMap::new"), "new(trees)")
+                }
+                1 => {
+                    let entries: Vec<(BlockRange, Node)> = (0..keys.len()).map(|i| (keys[i].clone(), rootn(i))).collect();
+                    let cache = MKMap::<BlockRange, Node, Obs>::new(&entries).expect("MKMap::new");
+                    let mut m = cache.clone();
+                    for i in 0..keys.len() {
+                        if provable[i] {
+                            m.replace(keys[i].clone(), full(i)).expect("replace");
+                        }
+                    }
+                    (m, "new(roots)+clone+replace")
+                }
+                2 => {
+                    let entries: Vec<(BlockRange, Node)> = (0..keys.len()).map(|i| (keys[i].clone(), full(i))).collect();
+                    let mut m = MKMap::<BlockRange, Node, Obs>::new(&entries).expect("MKMap::new");
+                    m.compress().expect("compress");
+                    for i in 0..keys.len() {
+                        if provable[i] {
+                            m.replace(keys[i].clone(), full(i)).expect("replace");
+                        }
+                    }
+                    (m, "new(trees)+compress+replace")
+                }
+                _ => {
+                    let mut m = MKMap::<BlockRange, Node, Obs>::new(&[]).expect("MKMap::new");
+                    for i in 0..keys.len() {
+                        m.insert(keys[i].clone(), if provable[i] { full(i) } else { rootn(i) }).expect("insert");
+                    }
+                    (m, "new([])+insert")
+                }
+            };
             let reg = take_reg();
-            assert_eq!(reg.len(), 1, "the map builds exactly one (master) tree");
+            assert!(!reg.is_empty(), "the map builds a master tree");
+            let reg = vec![reg.last().unwrap().clone()];
             let master_leaves: Vec<Vec<u8>> = keys.iter().zip(&subs).map(|(k, t)| merge(&key_bytes(k), &t.root)).collect();
             // the master tree is inside the map: rebuild its description from the observed store
             let store: BTreeMap<u64, Vec<u8>> = reg[0].store.read().unwrap().iter().map(|(p, n)| (*p, n.to_vec())).collect();
@@ -1288,8 +1631,8 @@ mod mmr {
             drop(lp);
             let dummy = Arc::new(MKTree::<Obs>::new(&[MKTreeNode::new(vec![0])]).unwrap());
             take_reg();
-            let master = T { id: 0, tag: None, leaves: master_leaves, tree: dummy, root, size, pos, store, name };
-            Forest { keys, subs, master, map }
+            let master = T { id: 0, tag: None, leaves: master_leaves, tree: dummy, root, size, pos, store, name, built: "map", orig_root: None };
+            Forest { keys, subs, master, map, provable, built }
         }
         pub fn coq_ranges(&self) -> String {
             cq::list(&self.keys.iter().zip(&self.subs).map(|(k, t)| cq::pair(&cq::bytes(&key_bytes(k)), &t.coq_leaves())).collect::<Vec<_>>())
@@ -1350,6 +1693,13 @@ mod mmr {
         }
     }
 
+    fn all_shifted(p: &MP, out: &mut Vec<Vec<u8>>) {
+        out.extend(p.master.shifted.iter().cloned());
+        for (_, s) in &p.subs {
+            all_shifted(s, out);
+        }
+    }
+
     fn push_map(sink: &mut Sink, id: u64, f: &Forest, kind: &str, p: &MP, queries: &[BV], expect: Expect) {
         let (v, c) = run_map(p, queries);
         let acc = v == 0;
@@ -1357,22 +1707,28 @@ mod mmr {
         if acc && p.master.root.0 != f.master.root {
             why = Some("a map proof verifies although its root is not the committed root".to_string());
         }
+        let mut bad: Vec<Vec<u8>> = vec![];
         if acc && why.is_none() {
             let mut vals = vec![];
             all_leaf_values(p, &mut vals);
             // what a verified proof vouches for: everything `contains` answers true to
             for (q, r) in queries.iter().zip(&c) {
                 if *r == Some(true) && !f.committed(&q.0) {
+                    bad.push(q.0.clone());
                     why = Some(format!("verified map proof `contains` {} which is no committed leaf", show(q)));
                 }
             }
             let real = p.real();
             for l in vals {
                 if real.contains(&MKTreeNode::new(l.0.clone())).is_ok() && !f.committed(&l.0) {
+                    bad.push(l.0.clone());
                     why = Some(format!("verified map proof vouches for {} which is no committed leaf", show(&l)));
                 }
             }
         }
+        let mut shifted = vec![];
+        all_shifted(p, &mut shifted);
+        let known = if why.is_some() && !bad.is_empty() && bad.iter().all(|b| shifted.contains(b)) { Some(KNOWN_RAW.to_string()) } else { None };
         if why.is_none() {
             match expect {
                 Expect::Accept if !acc => why = Some("an honest map proof does not verify".to_string()),
@@ -1383,12 +1739,12 @@ mod mmr {
         sink.push(Case {
             id,
             kind: format!("map/{}", kind),
-            desc: json!({"ranges": f.subs.iter().map(|t| t.leaves.len()).collect::<Vec<_>>(), "proof": p.desc(), "queries": queries.iter().map(show).collect::<Vec<_>>()}),
+            desc: json!({"ranges": f.subs.iter().map(|t| t.leaves.len()).collect::<Vec<_>>(), "map_built": f.built, "ranges_with_full_tree": f.provable, "proof": p.desc(), "queries": queries.iter().map(show).collect::<Vec<_>>()}),
             model: Some(format!("C09.Model.run_map {} {} {}", f.coq_ranges(), p.coq(), cq::list(&queries.iter().map(|q| q.1.coq()).collect::<Vec<_>>()))),
             impl_obs: obs_vc(v, &c),
             holds: Some(why.is_none()),
             why,
-            known: None,
+            known,
             nontrivial: f.subs.len() >= 2,
             key: format!("map/{}/{}", kind, p.coq()),
         });
@@ -1501,7 +1857,7 @@ mod mmr {
         // 1. exhaustive small trees: every n <= NMAX, every non-empty subset
         let nmax = if thorough { 9 } else { 8 };
         for n in 1..=nmax {
-            let t = T::tagged(0, n as u64, n);
+            let t = T::tagged_mode(0, n as u64, n, n as u64);
             for mask in 1u32..(1 << n) {
                 let sel: Vec<usize> = (0..n).filter(|i| mask >> i & 1 == 1).collect();
                 let (nm, np) = if thorough { (3, 1) } else { (1, if mask % 4 == 0 { 1 } else { 0 }) };
@@ -1510,6 +1866,11 @@ mod mmr {
             }
             if let Some(id) = sink.wants() {
                 push_gen(sink, id, &t, "gen-empty", &[]);
+            }
+            for rep in [vec![0, 0], vec![n - 1, 0, n - 1]] {
+                if let Some(id) = sink.wants() {
+                    push_gen(sink, id, &t, "gen-repeated", &rep);
+                }
             }
         }
         // 2. sampled sizes
@@ -1522,7 +1883,7 @@ mod mmr {
                 3 => (1 << rng.range(4, 8)) - 1,
                 _ => rng.range(9, top),
             } as usize;
-            let t = T::tagged(0, 1000 + k, n);
+            let t = T::tagged_mode(0, 1000 + k, n, k / 5 + 1);
             for s in 0..3 {
                 let mut sel: Vec<usize> = match (s + k) % 4 {
                     0 => (0..rng.range(1, 10.min(n as u64))).map(|_| rng.below(n as u64) as usize).collect(),
@@ -1540,6 +1901,12 @@ mod mmr {
                 if rng.coin() {
                     rng.shuffle(&mut sel);
                 }
+                // a leaf asked for twice (the position list handed to gen_proof has a duplicate)
+                if rng.chance(1, 4) {
+                    let r = sel[rng.below(sel.len() as u64) as usize];
+                    let at = rng.below(sel.len() as u64 + 1) as usize;
+                    sel.insert(at, r);
+                }
                 explore(sink, rng, &t, &sel, "sampled", if thorough { 4 } else { 3 }, 1, false);
             }
         }
@@ -1548,20 +1915,29 @@ mod mmr {
         for k in 0..nforests {
             let nr = 1 + (k % 6) as usize;
             let sizes: Vec<usize> = (0..nr).map(|_| rng.range(1, 9) as usize).collect();
-            let f = Forest::new(500 + k, &sizes);
+            // how the map came to be (the aggregator keeps range roots and swaps full trees in) and which
+            // ranges hold a full tree
+            let mut provable: Vec<bool> = (0..nr).map(|_| rng.chance(2, 3)).collect();
+            let forced = rng.below(nr as u64) as usize;
+            provable[forced] = true;
+            let f = Forest::new_mode(500 + k, &sizes, k / 2, &provable);
             let shapes = if thorough { 4 } else { 3 };
             for _ in 0..shapes {
                 // leaves from a random non-empty subset of the ranges
                 let mut leaves: Vec<Vec<u8>> = vec![];
-                for t in &f.subs {
-                    if rng.chance(2, 3) {
-                        for _ in 0..rng.range(1, 3) {
-                            leaves.push(t.leaves[rng.below(t.leaves.len() as u64) as usize].clone());
+                for (ti, t) in f.subs.iter().enumerate() {
+                    let take = rng.chance(2, 3);
+                    let cnt = rng.range(1, 3);
+                    let picks: Vec<usize> = (0..cnt).map(|_| rng.below(t.leaves.len() as u64) as usize).collect();
+                    if take && f.provable[ti] {
+                        for q in picks {
+                            leaves.push(t.leaves[q].clone());
                         }
                     }
                 }
                 if leaves.is_empty() {
-                    leaves.push(f.subs[0].leaves[0].clone());
+                    let ti = f.provable.iter().position(|b| *b).unwrap();
+                    leaves.push(f.subs[ti].leaves[0].clone());
                 }
                 leaves.sort();
                 leaves.dedup();
@@ -1583,10 +1959,33 @@ mod mmr {
                 {
                     let mut r = rng.fork();
                     if let Some(id) = sink.wants() {
-                        let b = base.as_ref().expect("honest map proof");
-                        let q = mk_queries(&mut r);
-                        push_map(sink, id, &f, "honest", b, &q, Expect::Accept);
+                        match base.as_ref() {
+                            Some(b) => {
+                                let q = mk_queries(&mut r);
+                                push_map(sink, id, &f, "honest", b, &q, Expect::Accept);
+                            }
+                            None => sink.push(Case {
+                                id,
+                                kind: "map/honest".to_string(),
+                                desc: json!({"ranges": f.subs.iter().map(|t| t.leaves.len()).collect::<Vec<_>>(), "map_built": f.built, "ranges_with_full_tree": f.provable, "leaves": leaves.iter().map(hex::encode).collect::<Vec<_>>()}),
+                                model: None,
+                                impl_obs: coq::ol(&[coq::oz(1)]),
+                                holds: Some(false),
+                                why: Some("MKMap::compute_proof fails for committed leaves of ranges that hold a full tree".to_string()),
+                                known: None,
+                                nontrivial: f.subs.len() >= 2,
+                                key: format!("map/honest-failed/{:?}", leaves),
+                            }),
+                        }
                     }
+                }
+                if base.is_none() {
+                    for _ in 0..(if thorough { 6 } else { 4 }) {
+                        let _ = rng.fork();
+                        let _ = rng.below(N_MAPMUT);
+                        let _ = sink.wants();
+                    }
+                    continue;
                 }
                 let nm = if thorough { 6 } else { 4 };
                 for _ in 0..nm {
@@ -1618,5 +2017,6 @@ fn main() {
     let mut sink = Sink::new(&args);
     mmr::run(&mut sink, &mut rng, args.thorough);
     stm::run(&mut sink, &mut rng, args.thorough);
+    stm::run_real(&mut sink, &mut rng, args.thorough);
     sink.finish();
 }
